@@ -34,6 +34,7 @@ class Values:
     def __init__(self, rng, kind):
         self.rng = rng
         self.kind = kind
+        self.made = []  # list objects handed out so far
 
     def long(self):
         """a value around the 1024-octet quoted-string limit some encoders switch at,
@@ -77,7 +78,11 @@ class Values:
         return r.choice(BENIGN)
 
     def lst(self, lo=1, hi=3):
+        if self.made and self.rng.random() < 0.12:
+            # the caller's own list object, used for a second slot (same object, not a copy)
+            return self.rng.choice(self.made)
         out = [self.s() for _ in range(self.rng.randint(lo, hi))]
+        self.made.append(out)
         if len(out) < 4 and self.rng.random() < 0.15:
             # an item given twice (equal by value, and the very same object)
             out.append(self.rng.choice(out))
